@@ -624,6 +624,49 @@ def deep_nesting_step(binary, v, tier):
     v.cov["deep_nesting_files"] = len(files)
 
 
+INVALID_UTF8 = {
+    "ff-in-the-middle": b'fn f() { info!("x"); }\n\xff\xfe\xfd\nfn g() {}\n', "ff-at-the-end": b'fn f() { info!("x"); }\n\xff',
+    "cut-2-byte-char": b'fn f() { info!("x"); } // caf\xc3', "cut-3-byte-char": b'fn f() { info!("x"); } // \xe4\xb8',
+    "cut-4-byte-char-1": b"\xf0", "cut-4-byte-char-2": b"\xf0\x9f", "cut-4-byte-char-3": b'info!("x");\n\xf0\x9f\xa6',
+    "lone-continuation": b'fn f() { info!("x"); }\n\x80\n', "overlong": b'fn f() { info!("x"); }\n\xc0\xaf\n',
+    "surrogate": b'fn f() { info!("x"); }\n\xed\xa0\x80\n', "utf16-bom": b"\xff\xfef\x00n\x00 \x00f\x00(\x00)\x00",
+    "nul-then-ff": b'fn f() { info!("x"); }\x00\xff', "inside-literal": b'fn f() { info!("caf\xe9"); }\n',
+}
+
+
+def invalid_utf8_step(binary, v):
+    """Every way a file can fail to be UTF-8 (invalid bytes in the middle and at the end, characters cut short at the end of
+    the file, overlong forms, surrogates, UTF-16): the file is reported and skipped, the file next to it is processed."""
+    for structured in (False, True):
+        for name, data in INVALID_UTF8.items():
+            P = bl.Project(structured=structured, tag="iu")
+            try:
+                P.write_sources({"bad.rs": data, "ok.rs": 'fn g(){ info!("plain"); }\n'})
+                for check in (True, False):
+                    r = bl.run_breadlog(binary, P.config_path, check=check, tmpdir=P.tmp, shim=False, timeout=120)
+                    v.evaluated(("invalid-utf8", name, structured, check))
+                    if r.exit_class in ("panic", "timeout", "signal", "killed"):
+                        v.violation({"check": "NoPanicNoHang", "family": "invalid-utf8", "file": name, "mode": "check" if check else "edit"},
+                                    "C17: breadlog %s in %s mode on a file that is not UTF-8 (%s): %s" % (
+                                        r.exit_class, "check" if check else "edit", name, r.stderr[-200:]),
+                                    {"family": "invalid-utf8", "shape": name, "bytes_hex": data.hex()})
+                    elif not any(l["code"] == 4 for l in r.logs):
+                        v.violation({"check": "UnreadableReported", "family": "invalid-utf8", "file": name},
+                                    "C17: a file that is not UTF-8 (%s) was not reported as unreadable" % name,
+                                    {"shape": name, "bytes_hex": data.hex()})
+                after = P.read_sources()
+                if after.get("bad.rs") != data:
+                    v.violation({"check": "UnreadableUntouched", "family": "invalid-utf8", "file": name},
+                                "C17: a file that is not UTF-8 (%s) was modified" % name, {"shape": name, "bytes_hex": data.hex()})
+                ok = after.get("ok.rs", b"")
+                if b"[ref: " not in ok and b"ref = " not in ok:
+                    v.violation({"check": "OthersStillProcessed", "family": "invalid-utf8", "file": name},
+                                "C17: the ordinary file next to a file that is not UTF-8 (%s) was not processed" % name, {"shape": name})
+            finally:
+                P.close()
+    v.cov["invalid_utf8_shapes"] = len(INVALID_UTF8)
+
+
 def c17(tier):
     v = Verdict("C17", tier, level="exploration")
     binary = common.build_breadlog()
@@ -633,8 +676,11 @@ def c17(tier):
     cases = tlc_cases(v, "intended/StmtDecoy.cfg")
     run_cases(binary, cases, v, {"C17"}, "decoy")
     deep_nesting_step(binary, v, tier)
+    invalid_utf8_step(binary, v)
     run_cases(binary, reftoken_cases(v, "quick"), v, {"C17"}, "reftoken", solo=0)
     run_cases(binary, tlc_cases(v, "intended/StmtKv.cfg"), v, {"C17"}, "kv", solo=0)
+    dpacks, dsolo = directive_packs(v, "quick")
+    run_cases(binary, None, v, {"C17"}, "directives", packs=dpacks, groups_extra=dsolo)
     # ID arithmetic at the u32 boundary and empty / huge inputs
     import runlevel as rl
     batch = rl.Batch()
